@@ -2,7 +2,7 @@
     the Sid-level clauses over the file system are exercised by correspondence in the data checks). *)
 From Coq Require Import List String Ascii Bool Arith Permutation Sorted.
 From Spil Require Import Base.Str Base.Dict Base.Outcome Regex.Re Conf.Conf Conf.WF Sid.Sid
-  Search.Unfold Search.FindList Search.Finders Search.GlobProofs Search.FindListProofs Search.UnfoldProofs Search.FindersProofs Conf.Routing FS.Fs Data.Data.
+  Search.Unfold Search.FindList Search.Finders Search.GlobProofs Search.FindListProofs Search.UnfoldProofs Search.FindersProofs Conf.Routing FS.Fs Data.Data Data.DataSpecProofs.
 From SpilGen Require Hamlet.
 Import ListNotations.
 Local Open Scope string_scope.
@@ -37,6 +37,17 @@ Print Assumptions C12_leaf_no_children.
 Theorem C12_find_all_nodup : forall Ld Rt F s l, find_all Ld Rt F s = Ok l -> NoDup l.
 Proof. exact find_all_nodup. Qed.
 Print Assumptions C12_find_all_nodup.
+
+(* children() is FindInAll's answer for "<sid>/*"; siblings() for the parent level with the key starred *)
+Theorem C12_children : forall Ld Rt F x l, is_leaf Ld x = false -> children Ld Rt F x = Ok l ->
+  (exists q, sid_div Ld x "*" = Ok q /\ find_all Ld Rt F (s_string q) = Ok l) /\ NoDup l.
+Proof. exact children_spec. Qed.
+Print Assumptions C12_children.
+
+Theorem C12_siblings : forall Ld Rt F x k l, siblings Ld Rt F x = Ok l -> keytype x = Some k ->
+  exists a q, get_as Ld x k = Ok a /\ get_with_kw Ld a [(k, Some "*")] = Ok q /\ find_all Ld Rt F (s_string q) = Ok l.
+Proof. exact siblings_spec. Qed.
+Print Assumptions C12_siblings.
 
 (* the guard of C12_exists is needed: the recorded edge (D20) *)
 Example C12_exists_empty_string_refuted :
